@@ -9,7 +9,16 @@ From AV Require Import Base.ListSet Model.Txn Model.C18Dialect.
 
 (* what env.py passes to context.configure *)
 Record ocfg := mkOcfg { c_tddl : option bool;     (* transactional_ddl=None/True/False *)
-                        c_per_mig : bool }.       (* transaction_per_migration          *)
+                        c_per_mig : bool;         (* transaction_per_migration          *)
+                        c_conn_in_txn : bool }.   (* context.configure(connection=<live Connection>) and that connection is
+                                                     already in a transaction (SQLAlchemy 2.0 autobegin); false when the
+                                                     context is configured from dialect_name/url or a fresh connection *)
+
+(* MigrationContext.__init__:
+     if as_sql: ...; self._in_external_transaction = False
+     else:      self._in_external_transaction = sqla_compat._get_connection_in_transaction(connection)
+   an offline script never depends on the transaction state of the connection it borrowed the dialect from *)
+Definition init_external (as_sql conn_in_txn:bool) : bool := if as_sql then false else conn_in_txn.
 
 (* DefaultImpl.__init__: if transactional_ddl is not None: self.transactional_ddl = transactional_ddl *)
 Definition effective_tddl (d:dialect) (c:ocfg) : bool :=
@@ -59,7 +68,7 @@ Fixpoint steps_chunks (d:dialect) (mc:mcfg) (k:N) (empty:bool) (steps:list ostep
   end.
 
 Definition offline_chunks (d:dialect) (c:ocfg) (r:run) : list rchunk :=
-  let mc := mkMcfg (effective_tddl d c) (c_per_mig c) false true in
+  let mc := mkMcfg (effective_tddl d c) (c_per_mig c) (init_external true (c_conn_in_txn c)) true in
   with_ctx d (begin_transaction mc false false) (steps_chunks d mc 0 (r_init_empty r) (r_steps r)).
 
 (* ------------------------------------------------------------------ chunks -> events *)
